@@ -292,6 +292,19 @@ impl Prop for C02 {
                 let engine = st.engine.engine();
                 let run = run_scripted(Box::new(server), || valve::query(&addr, engine, Some(gather), None));
                 o.failure = expect_equal("C02", "valve::query", &run, &st.expected_response(&gather), &[".rules"]);
+                // The Ship: the per-game response derived from the same exchange
+                if o.failure.is_none() && st.engine.is_ship() {
+                    // (the module checks the app id)
+                    let mut ship = st.clone();
+                    set_appid(&mut ship, 2400);
+                    fit(&mut ship);
+                    if let Some(server) = ValveServer::from_state(&ship) {
+                        let ip = doc_ip();
+                        let run = run_scripted(Box::new(server), || gamedig::games::theship::query(&ip, Some(27015)));
+                        o.label("wrapper=theship");
+                        o.failure = expect_equal("C02", "games::theship::query", &run, &crate::props::c07::expected_theship(&ship), &[".rules"]);
+                    }
+                }
                 // transport fidelity: a sample of cases is replayed over real loopback sockets with the same server
                 if o.failure.is_none() && crate::runner::digest(st.info.name.as_bytes()) % 64 == 0 && st.rules.len() < 200 {
                     let st2 = st.clone();
